@@ -1,0 +1,26 @@
+//go:build verif
+
+package ante
+
+// Contracts for x/reporter/ante, read by /verif/bin/govc. Comment-only: compiled
+// only with -tags verif and adds no code.
+//
+// msgs(tx) are the messages of the transaction; add_amt / sub_amt give the amount by
+// which one message raises / lowers bonded stake; staking.bonded is the staking
+// module's total bonded tokens; reporter.Tracker is the recorded baseline.
+
+//@ define add_amt(m) = typeis(m, "*github.com/cosmos/cosmos-sdk/x/staking/types.MsgCreateValidator") ? as(m, "*github.com/cosmos/cosmos-sdk/x/staking/types.MsgCreateValidator").Value.Amount : (typeis(m, "*github.com/cosmos/cosmos-sdk/x/staking/types.MsgDelegate") ? as(m, "*github.com/cosmos/cosmos-sdk/x/staking/types.MsgDelegate").Amount.Amount : (typeis(m, "*github.com/cosmos/cosmos-sdk/x/staking/types.MsgBeginRedelegate") ? as(m, "*github.com/cosmos/cosmos-sdk/x/staking/types.MsgBeginRedelegate").Amount.Amount : (typeis(m, "*github.com/cosmos/cosmos-sdk/x/staking/types.MsgCancelUnbondingDelegation") ? as(m, "*github.com/cosmos/cosmos-sdk/x/staking/types.MsgCancelUnbondingDelegation").Amount.Amount : 0)))
+//@ define sub_amt(m) = typeis(m, "*github.com/cosmos/cosmos-sdk/x/staking/types.MsgUndelegate") ? as(m, "*github.com/cosmos/cosmos-sdk/x/staking/types.MsgUndelegate").Amount.Amount : 0
+
+//@ func (t TrackStakeChangesDecorator).AnteHandle(ctx, tx, simulate, next) (newCtx, err)
+//@ requires [message_amounts_non_negative] forall j in [0, len(msgs(tx))) :: add_amt(msgs(tx)[j]) >= 0 && sub_amt(msgs(tx)[j]) >= 0
+//@ requires [messages_are_non_nil_pointers] forall j in [0, len(msgs(tx))) :: msgs(tx)[j] != nil && (typeis(msgs(tx)[j], "*github.com/cosmos/cosmos-sdk/x/staking/types.MsgCreateValidator") ==> as(msgs(tx)[j], "*github.com/cosmos/cosmos-sdk/x/staking/types.MsgCreateValidator") != nil) && (typeis(msgs(tx)[j], "*github.com/cosmos/cosmos-sdk/x/staking/types.MsgDelegate") ==> as(msgs(tx)[j], "*github.com/cosmos/cosmos-sdk/x/staking/types.MsgDelegate") != nil) && (typeis(msgs(tx)[j], "*github.com/cosmos/cosmos-sdk/x/staking/types.MsgBeginRedelegate") ==> as(msgs(tx)[j], "*github.com/cosmos/cosmos-sdk/x/staking/types.MsgBeginRedelegate") != nil) && (typeis(msgs(tx)[j], "*github.com/cosmos/cosmos-sdk/x/staking/types.MsgCancelUnbondingDelegation") ==> as(msgs(tx)[j], "*github.com/cosmos/cosmos-sdk/x/staking/types.MsgCancelUnbondingDelegation") != nil) && (typeis(msgs(tx)[j], "*github.com/cosmos/cosmos-sdk/x/staking/types.MsgUndelegate") ==> as(msgs(tx)[j], "*github.com/cosmos/cosmos-sdk/x/staking/types.MsgUndelegate") != nil)
+//@ modifies G_*
+//@ ensures [tx_cumulative_increase] called(next) && (sum j in [0, len(msgs(tx))) :: add_amt(msgs(tx)[j])) > 0 ==> has(old(reporter.Tracker)) && old(staking.bonded) + (sum j in [0, len(msgs(tx))) :: add_amt(msgs(tx)[j])) <= old(reporter.Tracker.Amount) + old(reporter.Tracker.Amount)/20
+//@ ensures [tx_cumulative_decrease] called(next) && (sum j in [0, len(msgs(tx))) :: sub_amt(msgs(tx)[j])) > 0 ==> has(old(reporter.Tracker)) && old(staking.bonded) - (sum j in [0, len(msgs(tx))) :: sub_amt(msgs(tx)[j])) >= old(reporter.Tracker.Amount) - old(reporter.Tracker.Amount)/20
+//@ loop 0 "for _, msg := range tx.GetMsgs()"
+//@ loop 0 invariant [increase_is_sum_of_adding_messages] totalIncrease == (sum j in [0, $i) :: add_amt(msgs(tx)[j]))
+//@ loop 0 invariant [decrease_is_sum_of_undelegations] totalDecrease == (sum j in [0, $i) :: sub_amt(msgs(tx)[j]))
+//@ loop 0 invariant [increase_within_bound] totalIncrease > 0 ==> has(reporter.Tracker) && staking.bonded + totalIncrease <= reporter.Tracker.Amount + reporter.Tracker.Amount/20
+//@ loop 0 invariant [decrease_within_bound] totalDecrease > 0 ==> has(reporter.Tracker) && staking.bonded - totalDecrease >= reporter.Tracker.Amount - reporter.Tracker.Amount/20
+//@ loop 0 invariant [nothing_called_or_written_yet] !called(next) && reporter.Tracker == old(reporter.Tracker) && has(reporter.Tracker) == has(old(reporter.Tracker)) && staking.bonded == old(staking.bonded)
